@@ -128,6 +128,22 @@ add("C11", "model_checking",
     "bounded-exhaustive enumeration of (type under test, companions, value) on the real implementation vs documented meaning",
     "DESIGN.md section 5 C11")
 
+add("C14", "model_checking",
+    "Every method set of <= 3 from a pool of type[...] annotations (classes, bare type, generics, nested parametrisations, a user generic), "
+    "pairs over two positions, call_next chains and recurse, x every passed type object / instance of the corpus: outcome vs R1-R3 with "
+    "the reference subtype relation.",
+    "Trusted: ref_subtype (vt/annot.py). Abstains (monitor only) where two applicable type[...] annotations have unrelated generic origins.",
+    "bounded-exhaustive enumeration of programs x passed type objects on the real implementation vs a reference model",
+    "DESIGN.md section 5 C14")
+
+add("C15", "model_checking",
+    "For 8 classes of equivalent spellings, every surrounding method set of the stated pool (incl. the other spelling of the same annotation, "
+    "which must act as a re-registration), both registration positions and every corpus value, the outcome tables of all spellings of a "
+    "class must be identical.",
+    "Purely differential; no reference model.",
+    "bounded-exhaustive differential enumeration of (spelling class, surrounding, value) on the real implementation",
+    "DESIGN.md section 5 C15")
+
 ALL = [f"C{i:02d}" for i in range(1, 21)]
 REASON_PENDING = "check not built yet in this round (planned: DESIGN.md section 5); not claimed until its machinery exists"
 
